@@ -12,6 +12,7 @@ import HC.Proofs.BlockGrow
 import HC.Proofs.BlockGrowWriter
 import HC.Proofs.BlockNew
 import HC.Proofs.BlockGrowGen
+import HC.Proofs.NewBlockWriter
 /-!
 # C03 — any honest proof is accepted and replicas converge to the writer's data
 
@@ -601,5 +602,36 @@ example (m n : Nat) (us : List (Nat × Nat)) (hup : Growth.Up m 0 (RefTree.roots
 /-- non-vacuity of the split -/
 example (m n : Nat) (hmn : m < n) (us : List (Nat × Nat)) (hup : Growth.Up m 0 (RefTree.rootsStack n).reverse us) :
     ∃ (a b : List (Nat × Nat)) (k : Nat), us = a ++ (k, m / 2 ^ k) :: b := BlockGrowGen.nextblock_split m n hmn us hup
+
+/-- the proof of `new_block_with_upgrade_applied` is the writer's: a writer whose log is the first `n` blocks answers the request
+    "block `i` (`m ≤ i < n`, any node count) and upgrade me from `m`" with exactly `BlockGrowGen.honestNewBlock` — the block with its
+    reference sibling path up to the node of the honest position list that holds it, the other nodes of that list, and
+    its signature -/
+theorem honest_newblock_is_writers (C : Crypto) (bs : Array Bytes) (n : Nat) (hn : n ≤ bs.size) (hs : bs.size < 2 ^ 64) (tw : Tree) (fw : File)
+    (hT : RefProof.RootsOK C (bs.extract 0 n) tw.changeset) (hN : Offsets.NodesOK C (bs.extract 0 n) tw fw)
+    (m : Nat) (hm0 : 0 < m) (hmn : m < n) (sig : Bytes) (hsig : tw.signature = some sig)
+    (us : List (Nat × Nat)) (hup : Growth.Up m 0 (RefTree.rootsStack n).reverse us) (i nn : Nat) (hmi : m ≤ i) (hi : i < n)
+    (a b : List (Nat × Nat)) (k : Nat) (hsplit : us = a ++ (k, i / 2 ^ k) :: b) :
+    ∃ nodes up, tw.createValuelessProof fw (some ⟨i, nn⟩) none none (some ⟨m, n - m⟩) = .ok ⟨tw.fork, some ⟨i, nodes⟩, none, none, some up⟩
+      ∧ BlockGrowGen.honestNewBlock C bs tw.fork i m n a b k sig = ⟨tw.fork, some ⟨i, bs.getD i [], nodes⟩, none, none, some up⟩ := by
+  have hsz := Growth.size_extract bs n hn
+  have hmem : (k, i / 2 ^ k) ∈ us := by rw [hsplit]; simp
+  have hb := Growth.up_bound m n _ 0 us (Offsets.cover_roots n) hup _ hmem
+  simp only at hb
+  have := NewBlockWriter.create_newblock_proof C (bs.extract 0 n) tw fw hT hN (by rw [hsz]; omega) m hm0 (by rw [hsz]; exact hmn) sig hsig us
+    (by rw [hsz]; exact hup) i nn hmi a b k hsplit
+  rw [hsz] at this
+  refine ⟨_, _, this, ?_⟩
+  simp only [BlockGrowGen.honestNewBlock]
+  rw [Growth.sibPath_extract C bs n hn _ 0 i (by simp only [Nat.zero_add]; exact hb)]
+  congr 3
+  apply List.map_congr_left
+  intro q hq
+  have hq' : q ∈ us := by
+    rw [hsplit]
+    rcases List.mem_append.mp hq with h | h
+    · exact List.mem_append.mpr (Or.inl h)
+    · exact List.mem_append.mpr (Or.inr (List.mem_cons_of_mem _ h))
+  exact (Growth.nodeAt_extract C bs n hn q.1 q.2 (Growth.up_bound m n _ 0 us (Offsets.cover_roots n) hup q hq')).symm
 
 end HC.C03
